@@ -425,3 +425,28 @@ def parser_class_for(gtext: str, base):
 
 def alt_variant(g: dict) -> dict:
     return {**g, "text": ALT_MARK + g["text"]}
+
+
+def flood_grammar(seed: int, i: int, m: int) -> str:
+    """The i-th synthetic grammar of a GRAMMAR FLOOD: m rules with names, literals, case-
+    insensitive keywords, ranges and choices that occur in no other grammar -- what a
+    long-running process accumulates (rule names, compiled patterns, generated constants)."""
+    rng = random.Random(derive(seed, i))
+    rules = ['WHITESPACE = _{ " " }'] if i % 3 == 0 else []
+    for j in range(m):
+        a = 0x100 + rng.randrange(0x2000)
+        lo, hi = chr(a), chr(a + rng.randint(1, 40))
+        kw = "".join(rng.choice("abcdefghijklmnopqrstuvwxyz") for _ in range(rng.randint(3, 7)))
+        body = rng.choice((
+            f"'{lo}'..'{hi}' ~ ^\"{kw}\" ~ (\"{kw}{j}a\" | \"{kw}{j}b\" | \"{kw}\")",
+            f"(!\"{kw}{i}\" ~ ANY)* ~ \"{kw}{i}\"",
+            f"(\"{kw}\" | '{lo}'..'{hi}' | ^\"{kw}{j}\")+ ~ ASCII_DIGIT?",
+        ))
+        rules.append(f"f{i}_{j} = {{ {body} }}")
+    return "\n".join(rules) + "\n"
+
+
+def derive(*parts) -> int:
+    import hashlib  # noqa: PLC0415
+
+    return int.from_bytes(hashlib.sha256(repr(parts).encode()).digest()[:8], "big")
